@@ -153,6 +153,7 @@ func (p *Program) srcHash(fn *ssa.Function) string {
 
 // fnInfo: per-function precomputed register numbering.
 type fnInfo struct {
+	switches map[*ssa.BasicBlock]*ssautil.Switch
 	fn    *ssa.Function
 	index map[ssa.Value]int
 	nregs int
@@ -185,6 +186,16 @@ func (p *Program) info(fn *ssa.Function) *fnInfo {
 		}
 	}
 	fi.nregs = n
+	fi.switches = map[*ssa.BasicBlock]*ssautil.Switch{}
+	if len(fn.Blocks) > 0 {
+		sws := ssautil.Switches(fn)
+		for i := range sws {
+			sw := &sws[i]
+			if len(sw.ConstCases) >= 2 && sw.Start != nil {
+				fi.switches[sw.Start] = sw
+			}
+		}
+	}
 	p.finfo[fn] = fi
 	return fi
 }
